@@ -177,7 +177,8 @@ PROPS["C06"] = Prop(
     oracle_tokens=["ORACLE_COUNTERS_DO_NOT_MATCH_OPERATIONS", "ORACLE_REJECTED_EXCEEDS_UNACCEPTED_ATTEMPTS",
                    "ORACLE_FINAL_TIME_OUT_OF_RANGE", "ORACLE_CONVERGED_WITHOUT_PROGRESS",
                    "ORACLE_CONVERGED_BEFORE_END_OF_INTERVAL", "ORACLE_FINAL_TIME_NOT_SUM_OF_ACCEPTED_STEPS",
-                   "ORACLE_STATE_NOT_THE_SOLUTION_AT_FINAL_TIME", "ORACLE_BE_TIME_ADVANCE_NOT_THE_H_IN_THE_MATRIX"],
+                   "ORACLE_STATE_NOT_THE_SOLUTION_AT_FINAL_TIME", "ORACLE_BE_TIME_ADVANCE_NOT_THE_H_IN_THE_MATRIX",
+                   "ORACLE_NO_PROGRESS_ON_A_POSITIVE_TIME_STEP"],
 )
 PROPS["C07"] = Prop(
     "C07",
